@@ -46,6 +46,7 @@ func runC01(c *Ctx) {
 		cycleGuard(s, "R3", "(*Value).toGoValueInterval")
 		cycleGuard(s, "R3", "(*Value).prettyStringInteral")
 	})
+	c.shared("R16", "C20/R13", "never a Go runtime crash: the Go stack a run uses is bounded — between two frame pushes (each with its depth test) the evaluator does not recurse to a depth that grows with the program text", keyHas("recursion-between-frames"), func(s *Ctx) { recursionBetweenFrames(s, "R13") })
 	c.shared("R15", "C10/R6", "no evaluator is used half-built: all interpreter state is the documented set, created by the one constructor — a map field added for a cache and made in only one of the two entry points is a nil-map panic in the other", keyHas("evaluator-state", "syntax-tree-store", "interpreter-state"), func(s *Ctx) { interpreterState(s, "R6") })
 	c.shared("R13", "C12/R8", "building an error message never crashes: the line / column computation is the recognised scan over byte offsets, which slices the source text only between a recorded line start and the scan index (no computed bound that an empty text or an end position could push out of range)", keyHas("scan-index", "line-", "column", "source-line"), c12LineColArithmetic)
 	c.shared("R14", "C09/R3", "a function value never becomes an element of a container: call arguments and literal items are copied on insertion, and the copy rejects functions — sort's clone and the renderers rely on every element being a data value", keyHas("copy-on-insert", "copy-flag-"), c09R3)
